@@ -19,7 +19,10 @@ def main():
     for sid in ids:
         d = "/verif/seeded/" + sid
         m = json.load(open(d + "/meta.json"))
-        prop = m["property"]
+        prop = m.get("expected_check", m["property"])
+        if prop == "none":
+            print(sid, "skipped (recorded as not detected)")
+            continue
         rc, out = sh("git -C /repo apply %s/patch.diff" % d)
         if rc != 0:
             print(sid, "PATCH-DOES-NOT-APPLY", out.strip()[:100])
